@@ -1,8 +1,8 @@
 CONSTANTS
   Ids = {1, 2}
   Limit = 3
-  Interval = 3
-  MaxTime = 12
+  Interval = 2
+  MaxTime = 8
   RefillFull = FALSE
 INIT Init
 NEXT Next
